@@ -360,6 +360,8 @@ def main(argv=None):
     if not a.no_evidence and not a.only:
         (VERIF / "evidence").mkdir(exist_ok=True)
         (VERIF / "evidence" / f"{prop}.json").write_text(json.dumps(ev, indent=1, default=str))
+    slow = sorted(results, key=lambda r: -r["wall"])[:3]
+    print("slowest:", "; ".join(f"{r['harness']} {json.dumps(r['cfg'], default=str)} {r['wall']:.1f}s paths={r['stats'].get('paths')}" for r in slow))
     print(f"{prop} tier={a.tier}: configs={len(results)} paths={tot.get('paths', 0)} obligations={tot.get('obligations', 0)} "
           f"queries={tot.get('queries', 0)} (unsat={tot.get('q_unsat', 0)} sat={tot.get('q_sat', 0)} unknown={tot.get('q_unknown', 0)}) "
           f"solver={tot.get('solver_s', 0):.1f}s selftest_ok={st_ok} known={len(known_hits)} new_violations={len(new_viol)} wall={wall:.1f}s exit={code}")
